@@ -355,6 +355,44 @@ func c14CLI(c *fw.Ctx, cs c14Case, text string, recs []sm.Record, want []tagTota
 	dir := fw.Scratch()
 	path := clidrv.WriteFile(dir, "c14.klg", text)
 	home := clidrv.Home("home")
+	// with an open range in a record: `klog tags --now` at noon of that record's day credits the closed range's time
+	// to the tags that apply to it (the aggregation must see the records AFTER they have been closed)
+	for _, rec := range recs {
+		if rec.OpenRange() < 0 {
+			continue
+		}
+		day := sm.DayNumber(rec.Date.Date)
+		closed, ok, _ := sm.CloseAt(recs, day, 12*60)
+		if !ok {
+			break
+		}
+		rn := clidrv.Run(home, clidrv.Opts{Now: dateAt(rec.Date.Y, rec.Date.M, rec.Date.D, 12, 0)}, "tags", "-v", "-c", "--decimal", "--no-style", "--no-warn", "--now", path)
+		var gotNow []tagTotal
+		cur := ""
+		for _, l := range strings.Split(strings.TrimRight(rn.Stdout, "\n"), "\n") {
+			f := strings.Fields(l)
+			if len(f) != 3 {
+				continue
+			}
+			var total, count int
+			fmt.Sscanf(f[1], "%d", &total)
+			fmt.Sscanf(f[2], "(%d)", &count)
+			if strings.HasPrefix(l, "#") {
+				cur = strings.TrimPrefix(f[0], "#")
+				gotNow = append(gotNow, tagTotal{cur + "=", total, count})
+			} else {
+				gotNow = append(gotNow, tagTotal{cur + "=" + f[0], total, count})
+			}
+		}
+		wantNow := refTagTotals(closed)
+		if rn.Panicked || rn.Code != 0 || fmt.Sprint(gotNow) != fmt.Sprint(wantNow) {
+			if !(len(wantNow) == 0 && strings.TrimSpace(rn.Stdout) == "" && rn.Code == 0) {
+				c.Violation("cli-tags-now", cs, fmt.Sprintf("`klog tags -v -c --now` at %s 12:00 (exit %d, panic %v) shows %v, expected %v\n%s", rec.Date.String(), rn.Code, rn.PanicVal, gotNow, wantNow, rn.Stdout))
+				return
+			}
+		}
+		break
+	}
 	r := clidrv.Run(home, clidrv.Opts{Now: fixedNow}, "tags", "-v", "-c", "--decimal", "--no-style", "--no-warn", path)
 	if r.Panicked || r.Code != 0 {
 		c.Violation("cli-tags", cs, fmt.Sprintf("`klog tags` failed: exit %d panic %v %s", r.Code, r.PanicVal, r.Err))
